@@ -35,6 +35,12 @@ INLINE = {'dB2Linear', 'linear2dB', 'dBm2Linear', 'linear2dBm'}
 
 def check(ctx: Ctx) -> None:
     M = ctx.model
+    # cheap structural rule first: a definite violation must not be hidden behind a later "cannot tell"
+    from ..idioms import check_input_immutability, public_api
+    fns = public_api(ctx.model, [CONV, METR, PROJ]) + public_api(ctx.model, [MISC], include={
+        'gmd', 'peig', 'leig', 'least_right_singular_vectors', 'update_inv_sum_diag', 'get_principal_component_matrix',
+        'calc_decorrelation_matrix', 'calc_whitening_matrix'})
+    check_input_immutability(ctx, 'C20.e', fns, floor=25)
     ctx.assume('real arithmetic on positive arguments (the identity is algebraic; floating-point rounding is not '
                'modelled); np.log10/math.log10 and pow/np.power/** denote the same operators')
     ctx.rule('C20.a', 'compositions of the unit conversions normalise to the identity term', floor=6)
